@@ -7,7 +7,7 @@ mkdir -p .build
 (cd tools/vxextract && CARGO_TARGET_DIR=../../.build/vxextract cargo build --release --offline)
 
 # warm the native replay crates (dependencies only change with /repo's Cargo.lock); failures here are not fatal
-for c in replay replay_net replay_tsig replay_sign replay_xfr replay_client; do
+for c in replay replay_net replay_tsig replay_sign replay_xfr replay_client replay_srv; do
   (cd $c && cp /repo/Cargo.lock . 2>/dev/null; CARGO_TARGET_DIR=../.build/$c cargo build --offline -q --bins >/dev/null 2>&1 || true; CARGO_TARGET_DIR=../.build/$c cargo build --offline -q --release --bins >/dev/null 2>&1 || true)
 done
 # warm the in-crate native test target (private validator items through the verif_native hook)
